@@ -90,6 +90,11 @@ def cases(tier, rng, dist):
     for d in designs(tier):
         dist.add("design", d["d"])
         yield d
+    # "for each supported generator type": a plain seed is the same generator as a fresh SHA256(seed), so the uniformity
+    # established for generator instances carries over (helpers and get_prng; see core_runs.run_prng)
+    for _ in range(6 if tier == "quick" else 40):
+        dist.add("design", "seed_kinds")
+        yield {"d": "seed_kinds", "f": "prng", "seed": real_seed(rng), "gseed": rng.randint(0, 10**6)}
 
 
 def xvals(c):
@@ -103,6 +108,9 @@ def xvals(c):
 
 def run(c):
     d = c["d"]
+    if d == "seed_kinds":
+        from ..core_runs import run_prng
+        return run_prng(c)
     if d == "permute":
         x = np.array(c["x"], dtype=float)
         leaves = explore(lambda t: tuple(float(v) for v in utils.permute(x, t)))
@@ -210,6 +218,9 @@ def admissible(c):
 
 def oracle(c, o):
     d = c["d"]
+    if d == "seed_kinds":
+        from ..core_runs import oracle_prng
+        return oracle_prng(c, o)
     if d == "rs_structure":
         want = {"two_sample": [["shuffle", 7]] * 2, "one_sample": [["randint", 0, 2, 3]] * 2, "permute": [["random", 4]],
                 "pwg": [["random", 2], ["random", 3]]}
@@ -273,6 +284,8 @@ def to_coq(c, o):
 
 def extra_terms(c, o):
     d = c["d"]; out = []
+    if d == "seed_kinds":
+        return out
     if d == "permute":
         x = [Fraction(v) for v in c["x"]]
         for log, outc in o["leaves"]:
@@ -295,7 +308,7 @@ def extra_terms(c, o):
 
 
 def nontrivial(c, o):
-    return c["d"] == "rs_structure" or len(o.get("outcomes", [])) > 1
+    return c["d"] in ("rs_structure", "seed_kinds") or len(o.get("outcomes", [])) > 1
 
 
 def key(c):
